@@ -66,7 +66,19 @@ def _many_waiters(tier: str):
             yield {"keys": "aab" + "a" * (n - 3), "limit": limit, "expiration": None, "outcome": "value", "cancels": 0, "batch": 1, "variant": "function"}
 
 
+def _fix_programs(tier: str):
+    """explicit-state searches run to a fixpoint (hv.xstate): call / completion / cancellation /
+    clock histories of EVERY length with at most K callers active at a time"""
+    if tier == "quick":
+        cfgs = [(2, 1, None, 2, "function"), (2, 2, None, 2, "function"), (3, 1, None, 2, "function"), (2, 1, 2, 1, "function"), (2, 1, None, 2, "method"), (2, 1, None, 2, "function-exc")]
+    else:
+        cfgs = [(2, 1, None, 2, "function"), (2, 2, None, 2, "function"), (3, 1, None, 2, "function"), (3, 2, None, 2, "function"), (2, 1, 2, 1, "function"), (2, 1, 2, 2, "function"), (2, 2, 2, 2, "function"), (3, 1, 2, 1, "function"), (2, 1, None, 2, "method"), (2, 2, 2, 2, "method"), (2, 1, None, 2, "function-exc"), (4, 1, None, 1, "function")]
+    for active, limit, expiration, keys, variant in cfgs:
+        yield {"fix": True, "active": active, "limit": limit, "expiration": expiration, "keys": keys, "variant": variant.split("-")[0], "outcome": "exc" if variant.endswith("exc") else "value", "validate": "first" if tier == "quick" else "all", "deadline_s": 6000, "max_states": 200000}
+
+
 def programs(tier: str):
+    yield from _fix_programs(tier)
     yield from _many_waiters(tier)
     yield from _five(tier)
     yield from _fine(tier)
@@ -166,12 +178,249 @@ def _three_keys(tier: str):
         yield {"keys": keys, "limit": 2, "expiration": 2, "outcome": "value", "cancels": 0, "batch": 1, "variant": "function", "adv2": True}
 
 
+class CSys:
+    """Async cache + reference LRU with at most K callers active at a time, driven operation by
+    operation (hv.xstate.fixpoint interface): start a caller on key a / b, let the loop run, complete
+    the oldest / newest in-flight invocation, cancel an active caller, advance the clock.  The oracle
+    runs online: invocations == misses at the instant of every call; a finished caller holds its own
+    invocation's outcome; a cancelled caller ends cancelled and nobody else; invocations never see a
+    cancellation."""
+
+    def __init__(self, program) -> None:
+        from hv.vloop import VLoop
+
+        self.program = program
+        self.K, self.limit, self.expiration = program["active"], program["limit"], program["expiration"]
+        self.outcome = program.get("outcome", "value")
+        vtime.reset()
+        self.loop = VLoop()
+        self.loop.open()
+        self.viols: list[dict] = []
+        self.hist: list = []
+        self.invs: list[dict] = []  # all invocations, in start order
+        self.model: OrderedDict = OrderedDict()  # key -> (inv index, expire)
+        self.callers: list[dict] = []  # active callers {key, inv, task, cancel_requested}
+        self.ncalls = 0
+        sys_ = self
+
+        async def body(key):
+            rec = {"key": key, "n": len(sys_.invs), "saw_cancel": False, "done": False, "fut": sys_.loop.create_future()}
+            sys_.invs.append(rec)
+            try:
+                await rec["fut"]
+            except asyncio.CancelledError:
+                rec["saw_cancel"] = True
+                raise
+            rec["done"] = True
+            if sys_.outcome == "exc":
+                rec["exc"] = InvErr(f"inv{rec['n']}")
+                rec["exc"].n = rec["n"]
+                raise rec["exc"]
+            rec["val"] = Produced(rec["n"])
+            return rec["val"]
+
+        if program.get("variant") == "method":
+
+            class Owner:
+                @cache(limit=self.limit, expiration=self.expiration)
+                async def call(self, key):
+                    return await body(key)
+
+            self.owner = Owner()
+            self.fn = self.owner.call
+            self.root = vars(Owner)["call"]
+        else:
+
+            @cache(limit=self.limit, expiration=self.expiration)
+            async def fn(key):
+                return await body(key)
+
+            self.fn = fn
+            self.root = fn
+
+    def close(self) -> None:
+        self.loop.shutdown()
+
+    # -- reference --
+    def _model_call(self, key: str) -> int:
+        now = vtime.now()
+        e = self.model.get(key)
+        if e is not None and not (e[1] is not None and e[1] < now):
+            self.model.move_to_end(key)
+            return e[0]
+        self.model.pop(key, None)
+        inv = len(self.invs)  # the invocation this call must start
+        self.model[key] = (inv, None if self.expiration is None else now + self.expiration)
+        if len(self.model) > self.limit:
+            self.model.popitem(last=False)
+        return inv
+
+    def _inflight(self) -> list[dict]:
+        return [r for r in self.invs if not r["fut"].done()]
+
+    def enabled(self):
+        ops: list = []
+        fl = self._inflight()
+        if len(self.callers) < self.K:
+            now = vtime.now()
+            for key in ("a", "b") if self.program.get("keys", 2) == 2 else ("a",):
+                e = self.model.get(key)
+                miss = e is None or (e[1] is not None and e[1] < now)
+                # invocations whose callers were all cancelled stay in flight: bound them
+                if not miss or len(fl) < self.K + 1:
+                    ops.append(("start", key))
+        if fl:
+            ops.append(("complete", "oldest"))
+            if len(fl) > 1:
+                ops.append(("complete", "newest"))
+        for i, c in enumerate(self.callers):
+            if not c["cancel_requested"] and not c["task"].done():
+                ops.append(("cancel", i))
+        if self.expiration is not None:
+            ops.append(("adv", 1.25))
+        return ops
+
+    def _harvest(self) -> list:
+        out: list = []
+        keep: list = []
+        for c in self.callers:
+            t = c["task"]
+            if not t.done():
+                keep.append(c)
+                continue
+            inv = self.invs[c["inv"]] if c["inv"] < len(self.invs) else None
+            if c["cancel_requested"]:
+                if not t.cancelled():
+                    # the outcome may have been delivered before the request took effect
+                    if not (inv and inv["fut"].done()):
+                        self.viols.append(viol("cancel", "cancelled-caller-not-cancelled", "cancelled", "finished", history=list(self.hist)))
+                out.append("cancelled" if t.cancelled() else "finished-before-cancel")
+                continue
+            if t.cancelled():
+                self.viols.append(viol("isolation", "bystander-cancelled", "the caller gets its invocation's outcome", "cancelled", history=list(self.hist)))
+                out.append("bystander-cancelled")
+                continue
+            exc = t.exception()
+            got = exc if exc is not None else t.result()
+            want = None if inv is None else (inv.get("exc") if self.outcome == "exc" else inv.get("val"))
+            if inv is None or got is not want:
+                self.viols.append(
+                    viol("delivery", "wrong-invocation", f"outcome of invocation {c['inv']} (key {c['key']})", f"{type(got).__name__} n={getattr(got, 'n', None)} {str(got)[:40]}", history=list(self.hist))
+                )
+            out.append(("got", c["key"]))
+        self.callers = keep
+        return out
+
+    def apply(self, op):  # noqa: C901
+        op = tuple(op)
+        self.hist.append(list(op))
+        obs: list = [list(op)]
+        if op[0] == "start":
+            key = op[1]
+            before = len(self.invs)
+            want_inv = self._model_call(key)
+            task = self.loop.create_task(self.fn(key), name=f"call{self.ncalls}")
+            self.ncalls += 1
+            self.callers.append({"key": key, "inv": want_inv, "task": task, "cancel_requested": False})
+            self.loop.run_ready()
+            started = len(self.invs) - before
+            if want_inv == before and started != 1:
+                self.viols.append(viol("single-flight", "missing-invocation", "a new invocation for the missed key", f"{started} started", history=list(self.hist)))
+            elif want_inv < before and started != 0:
+                self.viols.append(viol("single-flight", "extra-invocation", f"shares invocation {want_inv}", f"{started} new invocation(s)", history=list(self.hist)))
+            elif started == 1 and self.invs[-1]["key"] != key:
+                self.viols.append(viol("single-flight", "invocations-differ", key, self.invs[-1]["key"], history=list(self.hist)))
+            obs.append("miss" if started else "join")
+        elif op[0] == "complete":
+            fl = self._inflight()
+            rec = fl[0] if op[1] == "oldest" else fl[-1]
+            rec["fut"].set_result(None)
+            self.loop.run_ready()
+        elif op[0] == "cancel":
+            c = self.callers[op[1]]
+            c["cancel_requested"] = True
+            c["task"].cancel()
+            self.loop.run_ready()
+        elif op[0] == "adv":
+            vtime.advance(op[1])
+            self.loop.run_ready()
+        obs += self._harvest()
+        for r in self.invs:
+            if r["saw_cancel"] and not r.get("reported"):
+                r["reported"] = True
+                self.viols.append(viol("isolation", "invocation-cancelled", "the invocation never sees CancelledError", r["n"], history=list(self.hist)))
+        # every caller whose invocation has finished is done by now (delivery terminates)
+        for c in self.callers:
+            inv = self.invs[c["inv"]] if c["inv"] < len(self.invs) else None
+            if inv is not None and inv["fut"].done() and not c["task"].done():
+                self.viols.append(viol("termination", "caller-hangs", "a caller is done once its invocation finished", {"key": c["key"], "inv": c["inv"]}, history=list(self.hist)))
+                break
+        return obs
+
+    def canon(self):
+        from hv import xstate
+
+        import haiway.helpers.caching as mod
+
+        names = {id(self.owner): "owner"} if self.program.get("variant") == "method" else {}
+        c = xstate.Canon(names, horizon=(self.expiration or 0) + 1.5)
+        # invocation numbers are renamed in order of appearance: model (LRU order), then callers
+        ren: dict[int, int] = {}
+
+        def rn(n: int) -> int:
+            return ren.setdefault(n, len(ren))
+
+        e = self.expiration
+        model = tuple((k, rn(inv), None if exp is None else repr(max(exp - vtime.now(), -1.5))) for k, (inv, exp) in self.model.items())
+        for cl in self.callers:
+            rn(cl["inv"])
+        for r in self._inflight():
+            rn(r["n"])
+        c.rename = lambda n: ren.get(n, "stale")  # type: ignore[attr-defined]
+        callers = tuple((cl["key"], rn(cl["inv"]), cl["cancel_requested"], c(cl["task"])) for cl in self.callers)
+        flying = tuple((rn(r["n"]), r["key"]) for r in self._inflight())
+        # invocations nothing refers to any more (a replaced entry still held by a local variable
+        # of a suspended frame) are all the same "stale"
+        c.rename = lambda n: ren.get(n, "stale")  # type: ignore[attr-defined]
+        impl = c(self.root)
+        return (impl, xstate.module_state(mod, c), model, callers, flying, xstate.loop_state(self.loop, c))
+
+
+def _produced_canon(self, c):
+    rn = getattr(c, "rename", None)
+    return ("P", rn(self.n) if rn else self.n)
+
+
+Produced.__hv_canon__ = _produced_canon  # type: ignore[attr-defined]
+
+
+def _inverr_canon(self, c):
+    rn = getattr(c, "rename", None)
+    n = getattr(self, "n", None)
+    return ("InvErr", rn(n) if (rn and n is not None) else str(self))
+
+
+InvErr.__hv_canon__ = _inverr_canon  # type: ignore[attr-defined]
+
+
+def execute_fix(program) -> Result:
+    from hv import xstate
+
+    r = xstate.fixpoint(lambda: CSys(program), max_states=program.get("max_states", 80000), validate_merges=program.get("validate", "all"))
+    obs = {k: v for k, v in r.items() if k != "violations"}
+    return Result("fix/" + ("capped" if r["capped"] else "fixpoint"), r["states"] > 10, r["violations"], obs, steps=r["transitions"], capped=r["capped"], xstates=r["states"], xinfo=obs)
+
+
 def explore_config(tier: str, program) -> dict:
+    if program.get("fix"):
+        return {"split_depth": 0}
     heavy = len(program["keys"]) >= 3 and program["cancels"] >= 1
     return {"cap": 400000, "split_depth": 3 if heavy else 0}
 
 
 def execute(program, ch: Chooser) -> Result:  # noqa: C901, PLR0912, PLR0915
+    if program.get("fix"):
+        return execute_fix(program)
     keys, limit, expiration = program["keys"], program["limit"], program["expiration"]
     n = len(keys)
     w = World(ch, cancel_budget=program["cancels"], batch=program["batch"], fine=program.get("fine", False))
